@@ -40,7 +40,7 @@ ASSUMPTIONS = [
     'step : S -> Z -> S -- the algorithm is round-deterministic and the sampler is round-indexed: the state after '
     'round k is a function of the state before it and of k only (C10, C13)',
     'load (save s) = s -- save_state / load_state round-trip (C16)',
-    'num_checkpoints_to_keep >= 1, 0 <= num_rounds < 10^8, checkpoint_frequency >= 0',
+    '0 <= num_rounds < 10^8 (8-digit names); num_checkpoints_to_keep >= 1 is needed by C09_retention only',
     'the experiment directory is used by this experiment only (starts empty); rename and remove are atomic',
 ]
 PARTIAL = [
